@@ -208,6 +208,11 @@ pub fn judge_header(input: &[u8], rec: &mut Recorder) {
         Ok(Ok(h)) => {
             // locate the section inside the header's own buffer for the tiling check
             let hb = h.as_bytes();
+            if hb.len() != 16 + len {
+                // the header itself is wrong (C02 / C14's subject): no well-defined section to walk
+                rec.class("skipped:header-bytes-differ-from-wire(C02's subject)", || show(input, 40));
+                return;
+            }
             let sec_in_h: &[u8] = if fam == 0 { &hb[hb.len()..] } else { &hb[16 + size..16 + len] };
             if h.tlv_bytes() != section {
                 rec.violation("section-bytes:header", case(), "header".into(), format!("tlv_bytes() differs from the bytes after the address block on {}", show(input, 60)));
@@ -215,6 +220,10 @@ pub fn judge_header(input: &[u8], rec: &mut Recorder) {
             judge_iter(h.tlvs(), sec_in_h, "header.tlvs()", &case, rec);
             let o = h.to_owned();
             let ob = o.as_bytes();
+            if ob.len() != 16 + len {
+                rec.class("skipped:owned-copy-differs(C16's subject)", || show(input, 40));
+                return;
+            }
             let sec_in_o: &[u8] = if fam == 0 { &ob[ob.len()..] } else { &ob[16 + size..16 + len] };
             judge_iter(o.tlvs(), sec_in_o, "owned-header.tlvs()", &case, rec);
         }
